@@ -15,6 +15,8 @@
 //! | `ix` | `path.iter().transformed(&m)` (`t`), `path.clone().transformed(&m).iter_with_attributes()` (`s`) |
 //! | `in` | `path.iter().transformed(&m).flattened(tol)` (`tf`), `path.iter().flattened(tol).transformed(&m)` (`ft`) |
 //! | `e2e` | `Flattened::new(Rec(n), tol)` (`b`), `path.iter().flattened(tol)` (`f`), `for_each_flattened` (`a`) — no advice: the model side runs the C09 model of lyon_geom's flattener (end-to-end tie) |
+//! | `sim` | `m` an EXACT similarity (scale 2^k, quarter-turn rotation, no translation: every float operation of the flattener commutes with it), `s` its scale: `ft` `Rec.transformed(m).flattened(tol)` (flatten at `tol` in the source space, then transform) / `tf` `Rec.flattened(s·tol).transformed(m)` (transform, then flatten at `s·tol` in the target space); model: `flatBuilderC` with the C09 flattener model (no advice); oracle `builder.nesting/similarity`: the two routes agree call for call (theorem `flatten_transform_similarity_concrete`) |
+//! | `e2ep` | `e2e` without the iterator route, on fixed programs incl. curves whose segment count does not fit `u32`: lyon_geom panics in `count.to_u32().unwrap()`; the model's `flatBuilderC` / `flatAttrIterC` are `none` there and print `panic` too (the outcome the theorems of `Props/C16b.lean` exclude by `… = some out`) |
 //!
 //! CASE  `n tol m11 m12 m21 m22 m31 m32 <prog>`; prog = `B x y a*n | L x y a*n | Q cx cy x y a*n |
 //!       C c1 c2 x y a*n | E 0/1`, then the ADVICE: for every curve a route will flatten (in the
@@ -736,6 +738,18 @@ fn gen_xf(rng: &mut Rng, lattice: bool) -> (Transform, &'static str) {
     }
 }
 
+/// an exact similarity: scale 2^k, rotation by a multiple of 90 degrees, no translation -- scaling by
+/// a power of two, negating and swapping coordinates commute with every rounding of the flattener
+fn gen_sim(rng: &mut Rng) -> Transform {
+    let s = [0.25f32, 0.5, 1.0, 2.0, 4.0, 8.0][rng.below(6) as usize];
+    match rng.below(4) {
+        0 => Transform::new(s, 0.0, 0.0, s, 0.0, 0.0),
+        1 => Transform::new(0.0, s, -s, 0.0, 0.0, 0.0),
+        2 => Transform::new(-s, 0.0, 0.0, -s, 0.0, 0.0),
+        _ => Transform::new(0.0, -s, s, 0.0, 0.0, 0.0),
+    }
+}
+
 fn gen_attrs(rng: &mut Rng, n: usize, lattice: bool) -> Vec<f32> {
     (0..n)
         .map(|_| match rng.below(8) {
@@ -988,6 +1002,27 @@ fn run_family(fam: &str, inp: &Input) -> CaseOut {
             check_flat(&mut orc, &mut def, "builder.flatten", Kind::Builder, prog, tol, &xf, true, &ft);
             check_flat(&mut orc, &mut def, "builder.flatten", Kind::Builder, &xprog, tol, &id, true, &tf);
         }
+        "sim" => {
+            // m is an exact similarity of scale s (see gen_sim): flattening in the target space at
+            // s*tol must give the transformed flattening of the source space at tol, call for call
+            let s = m.m11.abs() + m.m12.abs();
+            let ft = rec_run(|r| r.transformed(m).flattened(tol), n, prog);
+            let tf = rec_run(|r| r.flattened(s * tol).transformed(m), n, prog);
+            o.t("ft");
+            put_prog(&mut o, &ft);
+            o.t("tf");
+            put_prog(&mut o, &tf);
+            nested(&mut orc, "builder.flatten", &ft);
+            nested(&mut orc, "builder.flatten", &tf);
+            check_flat(&mut orc, &mut def, "builder.flatten", Kind::Builder, prog, tol, &xf, true, &ft);
+            check_flat(&mut orc, &mut def, "builder.flatten", Kind::Builder, &xprog, s * tol, &id, true, &tf);
+            orc.check(ft.len() == tf.len(), "builder.nesting/similarity", "generic", || format!("scale {}: flatten-then-transform emits {} calls, transform-then-flatten at s*tol {}", s, ft.len(), tf.len()));
+            if ft.len() == tf.len() {
+                for (i, (a, b)) in ft.iter().zip(tf.iter()).enumerate() {
+                    orc.check(a == b, "builder.nesting/similarity", "generic", || format!("scale {}: call {}: flatten-then-transform {:?}, transform-then-flatten at s*tol {:?}", s, i, a, b));
+                }
+            }
+        }
         "na" => {
             let f = rec_run(|r| NoAttributes::wrap(r).flattened(tol), 0, prog);
             let t = rec_run(|r| NoAttributes::wrap(r).transformed(m), 0, prog);
@@ -1053,6 +1088,32 @@ fn run_family(fam: &str, inp: &Input) -> CaseOut {
             ev_flat(&mut orc, &mut def, "iter.for-each-flattened", Kind::AttrIter, prog, tol, &id, true, &a);
             ev_flat(&mut orc, &mut def, "iter.flatten", Kind::Iter, prog, tol, &id, false, &f);
         }
+        "e2ep" => {
+            // builder-side Flattened and for_each_flattened where "lyon_geom panics" is a modelled
+            // outcome (`none` of flatBuilderC / flatAttrIterC in Model/Path/AdaptersConcrete.lean)
+            let r = vh::guarded(|| {
+                let calls = rec_run(|r| Flattened::new(r, tol), n, prog);
+                let path = build_path(n, prog);
+                let mut a: Vec<Ev> = vec![];
+                path.iter_with_attributes().for_each_flattened(tol, &mut |e| a.push(ev_attr(e)));
+                (calls, a)
+            });
+            match r {
+                None => {
+                    o.t("panic");
+                    orc.skip("lyon_geom panics (count.to_u32().unwrap()) on a curve whose segment count does not fit u32: observation, outside C16's statement");
+                }
+                Some((calls, a)) => {
+                    o.t("b");
+                    put_prog(&mut o, &calls);
+                    o.t("a");
+                    put_evs(&mut o, &a);
+                    nested(&mut orc, "builder.flatten", &calls);
+                    check_flat(&mut orc, &mut def, "builder.flatten", Kind::Builder, prog, tol, &id, true, &calls);
+                    ev_flat(&mut orc, &mut def, "iter.for-each-flattened", Kind::AttrIter, prog, tol, &id, true, &a);
+                }
+            }
+        }
         "ix" => {
             let path = build_path(n, prog);
             let t: Vec<Ev> = path.iter().transformed(&m).map(ev_plain).collect();
@@ -1095,10 +1156,14 @@ fn run_family(fam: &str, inp: &Input) -> CaseOut {
 
 fn emit(ctx: &mut Ctx, fam: &'static str, fixed: Option<Input>) {
     ctx.case(fam, |rng| {
-        let inp = match fixed {
+        let mut inp = match fixed {
             Some(i) => i,
             None => gen_input(rng),
         };
+        if fam == "sim" {
+            inp.m = gen_sim(rng);
+            inp.tag = format!("{} similarity", inp.tag);
+        }
         let mut args = put_input(&inp);
         put_advice(&mut args, fam, &inp);
         let tag = format!("{} {}", fam, inp.tag);
@@ -1155,12 +1220,44 @@ fn main() {
             emit(&mut ctx, fam, Some(inp));
         }
     }
+    // the panic outcome of lyon_geom's callback flattener (segment count >= 2^32) next to ordinary
+    // programs, builder side and for_each_flattened (the iterator route would not terminate)
+    let big = 1.0e6f32;
+    let pw: Vec<(&str, usize, f32, Vec<Op>)> = vec![
+        ("count-overflow quad", 1, 1.0e-14, vec![Op::B(p(0., 0.), vec![1.]), Op::Q(p(0.5 * big, big), p(big, 0.), vec![2.]), Op::E(false)]),
+        ("count-overflow cubic", 0, 1.0e-30, vec![Op::B(p(0., 0.), vec![]), Op::C(p(0., big), p(big, big), p(big, 0.), vec![]), Op::E(true)]),
+        (
+            "count-overflow second curve",
+            2,
+            1.0e-30,
+            vec![Op::B(p(0., 0.), vec![1., 2.]), Op::L(p(1., 0.), vec![3., 4.]), Op::L(p(2., 1.), vec![5., 6.]), Op::Q(p(0.5 * big, big), p(big, 0.), vec![7., 8.]), Op::E(true)],
+        ),
+        ("no-overflow lines", 1, 1.0e-30, vec![Op::B(p(0., 0.), vec![1.]), Op::L(p(big, 0.), vec![2.]), Op::L(p(big, big), vec![3.]), Op::E(true)]),
+        (
+            "no-overflow mixed",
+            3,
+            0.1,
+            vec![
+                Op::B(p(0., 0.), vec![0., 1., 2.]),
+                Op::L(p(10., 0.), vec![1., 2., 3.]),
+                Op::Q(p(10., 10.), p(0., 10.), vec![2., 3., 4.]),
+                Op::C(p(-5., 10.), p(-5., 0.), p(0., 0.), vec![3., 4., 5.]),
+                Op::E(true),
+            ],
+        ),
+        ("no-overflow small tolerance", 1, 1.0e-4, vec![Op::B(p(0., 0.), vec![1.]), Op::Q(p(5., 10.), p(10., 0.), vec![2.]), Op::C(p(12., 4.), p(16., -4.), p(20., 0.), vec![-3.]), Op::E(false)]),
+    ];
+    for (name, n, tol, prog) in pw {
+        let inp = Input { n, tol, m: Transform::identity(), prog, tag: format!("witness {}", name) };
+        emit(&mut ctx, "e2ep", Some(inp));
+    }
     let k = ctx.n(2000, 25000);
     for _ in 0..k {
         for fam in ["bf", "bt", "bn", "na", "pb", "it", "ix", "in"] {
             emit(&mut ctx, fam, None);
         }
         emit(&mut ctx, "e2e", None);
+        emit(&mut ctx, "sim", None);
     }
     ctx.finish();
 }
